@@ -198,7 +198,7 @@ impl<T: Bounded> BVH<T> {
         let aabb = elements.aabb();
         let dim = aabb.max.coords - aabb.min.coords;
         let len = elements.len() as f32;
-        if dim.x >= dim.y && dim.x >= dim.z {
+        let (mut left, mut right): (Vec<T>, Vec<T>) = if dim.x >= dim.y && dim.x >= dim.z {
             // X es la dimensión mayor
             let cx = elements
                 .iter()
@@ -222,7 +222,14 @@ impl<T: Bounded> BVH<T> {
                 .sum::<f32>()
                 / len;
             elements.into_iter().partition(|e| e.aabb().center().z < cz)
+        };
+        // Con centros coincidentes en el eje de partición todos los elementos caen al mismo lado:
+        // repartimos por la mitad para garantizar que la partición siempre progresa
+        if left.is_empty() || right.is_empty() {
+            left.append(&mut right);
+            right = left.split_off(left.len() / 2);
         }
+        (left, right)
     }
 }
 
